@@ -252,7 +252,10 @@ impl<'a> Gen<'a> {
             };
             b.attrs.push(("name".into(), n));
         }
-        let with_children = cfg.nesting && depth == 0 && !wrapped && self.rng.chance(1, 6);
+        // nesting up to three levels deep
+        let with_children = cfg.nesting
+            && !wrapped
+            && ((depth == 0 && self.rng.chance(1, 6)) || (depth == 1 && self.rng.chance(1, 5)));
         b.lines = self.gen_lines(style, cfg.max_lines, path, clean);
         if with_children {
             let n = self.rng.range(1, 2);
